@@ -1,4 +1,4 @@
-import MorfuseModel.Emit.SimEmit
+import MorfuseModel.Emit.SimNest
 /-!
 # Simulation between the two passes: the remaining constructors and the assembly
 -/
@@ -75,12 +75,6 @@ theorem ms_carr (a : Node) (xs : Nodes) (ih1 : MSP a) (ih2 : MSPL xs) : MSP (.ca
   ms_walk
 
 theorem ms_marr (xs : Nodes) (ih1 : MSPL xs) : MSP (.marr xs) := by
-  ms_walk
-
-theorem ms_try (b : Node) (c : Node) (ih1 : MSP b) (ih2 : MSP c) : MSP (.try_ b c) := by
-  ms_walk
-
-theorem ms_switch (e : Node) (b : Node) (ih1 : MSP e) (ih2 : MSP b) : MSP (.switch e b) := by
   ms_walk
 
 theorem ms_brk   : MSP (.brk ) := by
